@@ -110,6 +110,9 @@ const (
 	OpBegin        = "begin"  // NewAddition + Addition.Add per transaction; the lock stays held
 	OpCommit       = "commit" // Commit + Close of the handle's open Addition
 	OpAbort        = "abort"  // Close of the handle's open Addition without Commit
+	// OpRmLock: the operator's recovery step after a crash - tables.list.lock
+	// is removed if (and only if) the process that created it is dead.
+	OpRmLock = "rmlock"
 )
 
 type OpSpec struct {
